@@ -216,3 +216,45 @@ Example C07_nonvacuous :
   i_phase (snd (run_hist ex_cfg (new_instance [1; 2; 3] 0) ex_events)) = TERMINATED /\
   i_err (snd (run_hist ex_cfg (new_instance [1; 2; 3] 0) ex_events)) = None.
 Proof. split; [repeat constructor; cbn; congruence|vm_compute; repeat split]. Qed.
+
+(* ---------- the participant around the instance (gpbft/participant.go) ---------- *)
+From F3 Require MsgQueue MsgQueueProofs Lifecycle LifecycleProofs.
+(* life cycle (Gpbft/Lifecycle.v: which instance exists when, the host's alarm slot, the hand-over of decisions; every
+   combination of "this event terminates the instance", "the instance re-arms its alarm", "the host accepts the decision",
+   "the host can provide a proposal" is allowed).  Between two StartInstanceAt calls of the host every instance is begun at
+   most once and its decision handed over at most once -- so the instance model's "one message per (round, step)" is "one
+   message per (instance, round, step)" of the participant; the instance number never decreases; after a failed hand-over
+   nothing runs until the host starts an instance again. *)
+Theorem C07_one_execution_per_instance : forall s i evs,
+  LifecycleProofs.fresh_start s i -> LifecycleProofs.no_start evs = true ->
+  let f := Lifecycle.lrun (Lifecycle.lstep s (Lifecycle.LStartAt i)) evs in NoDup (Lifecycle.l_execs f) /\ NoDup (Lifecycle.l_reported f).
+Proof. exact LifecycleProofs.one_execution_per_instance. Qed.
+Print Assumptions C07_one_execution_per_instance.
+Theorem C07_instance_number_monotone : forall evs s, LifecycleProofs.no_start evs = true -> Lifecycle.l_id s <= Lifecycle.l_id (Lifecycle.lrun s evs).
+Proof. exact LifecycleProofs.instance_number_monotone. Qed.
+Print Assumptions C07_instance_number_monotone.
+Theorem C07_idle_after_failed_handover : forall evs s, LifecycleProofs.idle s -> LifecycleProofs.no_start evs = true -> Lifecycle.lrun s evs = s.
+Proof. exact LifecycleProofs.idle_until_started. Qed.
+Print Assumptions C07_idle_after_failed_handover.
+Theorem C07_failed_handover_is_idle : forall s (r : bool), Lifecycle.l_running s = true ->
+  LifecycleProofs.idle (Lifecycle.handle s true r false) /\ Lifecycle.l_id (Lifecycle.handle s true r false) = Lifecycle.l_id s.
+Proof. exact LifecycleProofs.failed_handover_is_idle. Qed.
+Print Assumptions C07_failed_handover_is_idle.
+(* the queue of messages for instances that have not started (Gpbft/MsgQueue.v): it holds exactly the first arrival of every
+   (instance, sender, round, step) among the arrivals that are justified or within the look-ahead, one message per slot,
+   nothing else; Drain hands over exactly the queued messages of the instance *)
+Theorem C07_queue_keeps_every_slot : forall mr ms m, In m ms -> MsgQueueProofs.admissible mr m = true ->
+  exists x, In x (MsgQueue.q_run mr ms) /\ MsgQueue.same_slot m x = true.
+Proof. exact MsgQueueProofs.queue_keeps_every_slot. Qed.
+Print Assumptions C07_queue_keeps_every_slot.
+Theorem C07_queue_only_arrivals : forall mr ms x, In x (MsgQueue.q_run mr ms) -> In x ms /\ MsgQueueProofs.admissible mr x = true.
+Proof. exact MsgQueueProofs.queue_only_arrivals. Qed.
+Print Assumptions C07_queue_only_arrivals.
+Theorem C07_queue_one_per_slot : forall mr ms, MsgQueueProofs.slots_unique (MsgQueue.q_run mr ms).
+Proof. exact MsgQueueProofs.queue_one_per_slot. Qed.
+Print Assumptions C07_queue_one_per_slot.
+Theorem C07_queued_messages_delivered_at_start : forall mr ms i m,
+  In m ms -> MsgQueue.qm_inst m = i -> MsgQueueProofs.admissible mr m = true ->
+  exists x, In x (fst (MsgQueue.q_drain (MsgQueue.q_run mr ms) i)) /\ MsgQueue.same_slot m x = true.
+Proof. exact MsgQueueProofs.queued_messages_delivered_at_start. Qed.
+Print Assumptions C07_queued_messages_delivered_at_start.
